@@ -85,7 +85,13 @@ def check_forwarders(program, rep):
         why = 'the shorthand is not a single call statement'
         if len(body) == 1 and isinstance(body[0], (ast.Return, ast.Expr)) \
                 and isinstance(body[0].value, ast.Call):
-            c = body[0].value
+            from rules.evrules import beta_reduce
+
+            class _M:
+                module = f.module
+            c = beta_reduce(program, _M, body[0].value)
+            if not isinstance(c, ast.Call):
+                c = body[0].value
             want_f = f'{ps[0]}.world.{target}'
             want_a = [f'{ps[0]}.entity'] + ps[1:]
             got_a = [norm(a) for a in c.args] + [
@@ -422,6 +428,33 @@ def check_prototype(program, rep):
               'components', line=getattr(muts[0], 'lineno', f.node.lineno)
               if muts else f.node.lineno)
     body = _body(f)
+    # the products may be built by a private generator function of the
+    # module: `return _make(self, iter(self.component_types))` is read as the
+    # body of _make with its parameters replaced by the arguments
+    if len(body) == 1 and isinstance(body[0], ast.Return) and isinstance(
+            body[0].value, ast.Call) and isinstance(
+                body[0].value.func, ast.Name):
+        import copy
+        call = body[0].value
+        r = program.lookup(f.module, call.func.id)
+        if r and r[0] == 'func' and call.func.id.startswith('_') \
+                and not call.keywords and len(call.args) == len(
+                    r[1].params()) and any(isinstance(x, (ast.Yield,
+                                                          ast.YieldFrom))
+                                           for x in ast.walk(r[1].node)):
+            args = []
+            for a_ in call.args:
+                if isinstance(a_, ast.Call) and norm(a_.func) in (
+                        'iter', 'tuple', 'list') and len(a_.args) == 1:
+                    a_ = a_.args[0]
+                args.append(a_)
+            m_ = dict(zip(r[1].params(), args))
+
+            class _S(ast.NodeTransformer):
+                def visit_Name(self, x):
+                    return copy.deepcopy(m_[x.id]) if x.id in m_ and \
+                        isinstance(x.ctx, ast.Load) else x
+            body = [_S().visit(copy.deepcopy(s)) for s in _body(r[1])]
     scen = [(a, b) for a in (False, True) for b in (False, True)]
     results = []
     order_ok = False
